@@ -287,6 +287,16 @@ BundleCtrlEl(n, tag) ==
   El(n, [T |-> "VendorHeader", Header |-> [Xid |-> Xid(tag)], Vendor |-> <<79, 78, 70, 0>>, ExperimenterType |-> <<0, 0, 8, 252>>, VendorData |-> t],
      <<NewT(Nm(n, 0), "BundleControl"), Set(Nm(n, 0), "BundleID", t.BundleID), Set(Nm(n, 0), "Type", t.Type), Set(Nm(n, 0), "Flags", t.Flags),
        New(n, "NewBundleControl", <<Ref(Nm(n, 0))>>), Set(n, "Header.Xid", Xid(tag))>>)
+\* bundle-add carrying np experimenter properties (the API offers no way to give a property data: header-only properties)
+BundleAddPropsEl(n, inner, np, tag) ==
+  LET props == [i \in 1..np |-> LET t == [T |-> "BundlePropertyExperimenter", ExperimenterID |-> V(tag + i, 4), ExperimenterType |-> V(tag + i + 1, 4), Data |-> <<>>] IN
+                                 El(Nm(n, 20 + i), t, <<New(Nm(n, 20 + i), "NewBundlePropertyExperimenter", <<>>), Set(Nm(n, 20 + i), "ExperimenterID", t.ExperimenterID),
+                                                         Set(Nm(n, 20 + i), "ExperimenterType", t.ExperimenterType)>>)]
+      t == [T |-> "BundleAdd", BundleID |-> V(tag, 4), Flags |-> <<0, 1 + (tag % 3)>>, Message |-> inner.tree, Properties |-> TreesOf(props)] IN
+  El(n, [T |-> "VendorHeader", Header |-> [Xid |-> Xid(tag + 50)], Vendor |-> <<79, 78, 70, 0>>, ExperimenterType |-> <<0, 0, 8, 253>>, VendorData |-> t],
+     inner.ops \o OpsOf(props) \o <<NewT(Nm(n, 0), "BundleAdd"), Set(Nm(n, 0), "BundleID", t.BundleID), Set(Nm(n, 0), "Flags", t.Flags),
+                    Set(Nm(n, 0), "Message", Ref(inner.n)), Set(Nm(n, 0), "Properties", RefsOf(props)), New(n, "NewBundleAdd", <<Ref(Nm(n, 0))>>),
+                    Set(n, "Header.Xid", Xid(tag + 50))>>)
 BundleAddEl(n, inner, tag) ==
   LET t == [T |-> "BundleAdd", BundleID |-> V(tag, 4), Flags |-> <<0, 1 + (tag % 3)>>, Message |-> inner.tree, Properties |-> <<>>] IN
   El(n, [T |-> "VendorHeader", Header |-> [Xid |-> Xid(tag + 50)], Vendor |-> <<79, 78, 70, 0>>, ExperimenterType |-> <<0, 0, 8, 253>>, VendorData |-> t],
